@@ -23,6 +23,8 @@ type c14Case struct {
 	YAMLSeeds []uint64 `json:"yaml_seeds"`
 	CLISeeds  []uint64 `json:"cli_seeds"`
 	Runs      int      `json:"runs"`
+	// EmptyEntries adds an empty entry to the set-like lists before they are shuffled
+	EmptyEntries bool `json:"empty_entries"`
 }
 
 func mapSizes(c *ir.Config) []int {
@@ -69,9 +71,11 @@ func init() {
 			for i := 0; i < 4; i++ {
 				c.YAMLSeeds = append(c.YAMLSeeds, rapid.Uint64Range(1, 1<<40).Draw(t, "yamlseed"))
 			}
-			for i := 0; i < 2; i++ {
+			for i := 0; i < 6; i++ {
 				c.CLISeeds = append(c.CLISeeds, rapid.Uint64Range(1, 1<<40).Draw(t, "cliseed"))
 			}
+			// an empty entry in set-like lists ("a++b", a blank YAML item) is a harmless member of the set
+			c.EmptyEntries = rapid.Bool().Draw(t, "emptyentries")
 			setExtra(rp, "c14", c)
 			return rp
 		},
@@ -106,6 +110,17 @@ func init() {
 				}
 				return "", nil
 			}
+			if c.EmptyEntries {
+				cc := ir.Clone(v.Cfg)
+				for _, l := range []*[]string{&cc.ExcludeFields, &cc.RequiredFields, &cc.ComputedFields, &cc.SensitiveFields} {
+					if len(*l) > 0 {
+						*l = append(*l, "")
+					}
+				}
+				vv := *v
+				vv.Cfg = cc
+				v = &vv
+			}
 			canon := v.Cfg.YAML(nil, nil)
 			for i := 0; i < c.Runs; i++ {
 				if msg, err := check(fmt.Sprintf("run %d of the same request", i), canon, ""); msg != "" || err != nil {
@@ -124,7 +139,17 @@ func init() {
 			}
 			cliRef := ""
 			for i, s := range c.CLISeeds {
-				res, err := runReq(tools, dir, fd, v.Cfg.YAML(nil, skip), v.Cfg.CLI(shufflerFrom(s), nil), nil, nil)
+				// decoys: the spellings the code does not read carry other values; whatever the plugin makes of
+				// them must not depend on the run
+				decoys := []string{"sensitive_fields=Decoy.One+Decoy.Two", "duration_custom_type=DecoyDuration", "computed=Decoy.Three"}
+				var params []string
+				for _, p := range strings.Split(v.Cfg.CLI(shufflerFrom(s), nil), ",") {
+					if p == "" || strings.HasPrefix(p, "sensitive_fields=") || strings.HasPrefix(p, "duration_custom_type=") {
+						continue
+					}
+					params = append(params, p)
+				}
+				res, err := runReq(tools, dir, fd, v.Cfg.YAML(nil, skip), strings.Join(append(params, decoys...), ","), nil, nil)
 				if err != nil {
 					return "", err
 				}
@@ -190,7 +215,19 @@ func toSet(l []string) map[string]bool {
 func init() {
 	Defs["C16"] = &Def{
 		Draw: func(t *rapid.T, r *Recorder) *Replay {
-			v := genLevelVariant(t, r, func(o *gen.Opts, k *gen.KOpts) { k.OnlyCLI = true; k.Rich = true })
+			// one case in three has nothing but the nine two-channel options, so that the YAML file of the
+			// all-parameters split is empty (only comments)
+			pure := rapid.IntRange(0, 2).Draw(t, "pure") == 0
+			v := genLevelVariant(t, r, func(o *gen.Opts, k *gen.KOpts) {
+				k.OnlyCLI = true
+				k.Rich = true
+				if pure {
+					o.NoTemporal, k.NoTimeType = true, true
+				}
+			})
+			if pure {
+				v.Cfg.UseStateForUnknown = false
+			}
 			rp := &Replay{Variants: []*pipeline.Variant{v}}
 			var c c16Case
 			for _, k := range setOptions(v.Cfg) {
@@ -264,6 +301,19 @@ func init() {
 					return fmt.Sprintf("delivering %v as plugin parameters instead of YAML changes the output: %s", onCLI, firstDiff(allYAML, got)), nil
 				}
 			}
+			// all options as parameters and a configuration file that holds no document at all
+			if rest := v.Cfg.YAML(nil, toSet(opts)); strings.TrimSpace(strings.TrimPrefix(rest, "---")) == "" {
+				for _, empty := range []string{"# every option is given on the command line\n# sort: true\n", "\n", "---\n"} {
+					got, msg, err := content(fmt.Sprintf("all options as parameters, configuration file %q", empty), empty, v.Cfg.CLI(nil, toSet(opts)))
+					if err != nil || msg != "" {
+						return msg, err
+					}
+					if got != allYAML {
+						return "all options as parameters with an empty configuration file changes the output: " + firstDiff(allYAML, got), nil
+					}
+				}
+				r.Class("empty_yaml_file")
+			}
 			// precedence: YAML carries different values for every option that is set, the command line carries the real ones
 			all := toSet(opts)
 			cf := c.Conflict
@@ -311,6 +361,8 @@ func init() {
 			noTypes.Types = nil
 			fails := []struct{ name, yaml, param string }{
 				{"no types on either channel", noTypes.YAML(nil, nil), ""},
+				{"types: [] in YAML and no types parameter", "types: []\n" + strings.TrimPrefix(noTypes.YAML(nil, nil), "---\n"), ""},
+				{"types: (null) in YAML and an empty types parameter", "types:\n" + strings.TrimPrefix(noTypes.YAML(nil, nil), "---\n"), "types="},
 				{"unreadable config path", "", "config=does/not/exist.yaml,types=" + strings.Join(v.Cfg.Types, "+")},
 				{"unparsable YAML", "types: [unterminated\n  - : :\n", ""},
 			}
@@ -716,6 +768,78 @@ func init() {
 					if exF[fn] != baseF[fn] {
 						return fmt.Sprintf("excluding the unmappable field does not restore %s as generated without the field: %s", fn, firstDiff(baseF[fn], exF[fn])), nil
 					}
+				}
+			}
+			// excluding the field by full path below ONE of several affected types restores that type only
+			if len(affected) >= 2 {
+				byRoot := map[string][]string{}
+				complete := map[string]bool{}
+				for tn := range affected {
+					complete[tn] = true
+				}
+				for _, oc := range model.Occurrences(bad, v.Cfg.Types) {
+					if oc.TypeKey != c.Host+".ZzBad" {
+						continue
+					}
+					// which root does the occurrence belong to? full keys start with the root's name
+					if oc.FullKey == "" {
+						for tn := range affected { // an occurrence without a full key (below an embedded message) cannot be excluded per root
+							complete[tn] = false
+						}
+						continue
+					}
+					root := strings.SplitN(oc.FullKey, ".", 2)[0]
+					byRoot[root] = append(byRoot[root], oc.FullKey)
+				}
+				for _, tn := range keys(affected) {
+					if !complete[tn] || len(byRoot[tn]) == 0 {
+						continue
+					}
+					ex := ir.Clone(v.Cfg)
+					ex.ExcludeFields = append(ex.ExcludeFields, byRoot[tn]...)
+					em, merr := model.Build(bad, ex)
+					if merr != nil {
+						break
+					}
+					still := map[string]bool{}
+					for _, root := range em.Roots {
+						root.Walk(func(m *model.Msg) {
+							for _, a := range m.Attrs {
+								if a.TypeKey == c.Host+".ZzBad" {
+									still[root.Name] = true
+								}
+							}
+						})
+					}
+					if still[tn] {
+						continue
+					}
+					res3, err := runReq(tools, dir, desc.BuildFile(bad), ex.YAML(nil, nil), "", nil, nil)
+					if err != nil {
+						return "", err
+					}
+					if msg := okResult(res3); msg != "" {
+						return "with the unmappable field excluded below " + tn + " only: " + msg, nil
+					}
+					pf, perr := funcTexts("partial", res3.Content())
+					if perr != nil {
+						return "file generated with a per-type exclusion does not parse: " + perr.Error(), nil
+					}
+					for _, other := range v.Cfg.Types {
+						for _, fn := range threeFuncs(other) {
+							_, has := pf[fn]
+							switch {
+							case still[other] && has:
+								return fmt.Sprintf("type %s still reaches the unmappable field (it is excluded below %s only) but %s was generated", other, tn, fn), nil
+							case !still[other] && !has:
+								return fmt.Sprintf("the unmappable field is excluded below %s by full path (%v), type %s does not reach it, but %s is missing; stderr: %s", tn, byRoot[tn], other, fn, tail(res3.Stderr)), nil
+							case !still[other] && pf[fn] != baseF[fn]:
+								return fmt.Sprintf("per-type exclusion of the unmappable field changes %s: %s", fn, firstDiff(baseF[fn], pf[fn])), nil
+							}
+						}
+					}
+					r.Class("per_type_exclusion")
+					break
 				}
 			}
 			r.Class("kind:" + c.Kind)
